@@ -341,7 +341,7 @@ fn real_strategy(_t: Tier) -> BoxedStrategy<Case> {
 pub fn property() -> Property {
     Property {
         id: "C05",
-        rule: "Patterns without { } < >: token lists (<= 10) of literals (letters of both cases, digits, - . _ + é), '*' (never adjacent to another '*'), '?', '[set]' / '[!set]' with 1-3 members (single alphanumerics or ascending ranges) and a literal ']'; shapes forced often: metacharacter in position 0 or 1, 0-2-token patterns, plain patterns. Names: an instance of the pattern, then with probability 1/2 one mutation (change first / second / last / any character, delete, insert, truncate to 0/1/2 characters, drop first/second character, append). Separate stream of malformed globs (unclosed '[', '***'). Oracle: with a metacharacter -> compiles iff well-formed and matches iff M-glob (own shell-glob matcher) does; without -> matches iff byte-identical. Non-trivial = the pattern has a metacharacter, or the name differs from a plain pattern in exactly one of its first two characters. Distinct = distinct (pattern, name).",
+        rule: "Patterns without { } < >: token lists (<= 10) of literals (letters of both cases, digits, - . _ + é), '*' (never adjacent to another '*'), '?', '[set]' / '[!set]' with 1-3 members (single alphanumerics or ascending ranges) and a literal ']'; shapes forced often: metacharacter in position 0 or 1, 0-2-token patterns, plain patterns. Names: an instance of the pattern, then with probability 1/2 one mutation (change first / second / last / any character, delete, insert, truncate to 0/1/2 characters, drop first/second character, append). Separate stream of malformed globs (unclosed '[', '***'). Oracle: with a metacharacter -> compiles iff well-formed and matches iff M-glob (own shell-glob matcher) does; without -> matches iff byte-identical. Non-trivial = the pattern has a metacharacter, or the name differs from a plain pattern in exactly one of its first two characters. Distinct = distinct (pattern, name). Generators also draw, at low weight, tokens from the source-literal dictionary (every string / byte / character literal of the library's own source, collected at build time and filtered by this domain's character class) (as glob literals and as name prefixes / suffixes); set members include ^ ! ] \\ * ?; stream dialect: POSIX classes, '^' negation, backslash escapes, ']' / '!' inside a set - ordinary characters in this dialect - against short names over the characters involved.",
         assumptions: vec![
             "names with a leading '.' or containing '/' and patterns with '**' are outside the generated subset (shell and crate conventions differ there)",
             "set members are alphanumerics, '[' '.' '+' '_' ',' 'é' and ascending alphanumeric ranges (no '-', ']', '^', '!' as members)",
